@@ -15,11 +15,24 @@ type RenameObject struct {
 
 func (pass *RenameObject) Process(schemas []*ast.Schema) ([]*ast.Schema, error) {
 	visitor := &Visitor{
-		OnObject: pass.processObject,
-		OnRef:    pass.processRef,
+		OnObject:      pass.processObject,
+		OnRef:         pass.processRef,
+		OnConstantRef: pass.processConstantRef,
 	}
 
-	return visitor.VisitSchemas(schemas)
+	newSchemas, err := visitor.VisitSchemas(schemas)
+	if err != nil {
+		return nil, err
+	}
+
+	// the entry point follows the object it names
+	for _, schema := range newSchemas {
+		if schema.EntryPoint != "" && pass.From.MatchesRef(ast.RefType{ReferredPkg: schema.Package, ReferredType: schema.EntryPoint}) {
+			schema.EntryPoint = pass.To
+		}
+	}
+
+	return newSchemas, nil
 }
 
 func (pass *RenameObject) processObject(visitor *Visitor, schema *ast.Schema, object ast.Object) (ast.Object, error) {
@@ -38,6 +51,14 @@ func (pass *RenameObject) processObject(visitor *Visitor, schema *ast.Schema, ob
 	}
 
 	return object, nil
+}
+
+func (pass *RenameObject) processConstantRef(_ *Visitor, _ *ast.Schema, def ast.Type) (ast.Type, error) {
+	if pass.From.MatchesRef(ast.RefType{ReferredPkg: def.ConstantReference.ReferredPkg, ReferredType: def.ConstantReference.ReferredType}) {
+		def.ConstantReference.ReferredType = pass.To
+	}
+
+	return def, nil
 }
 
 func (pass *RenameObject) processRef(_ *Visitor, _ *ast.Schema, def ast.Type) (ast.Type, error) {
